@@ -196,8 +196,37 @@ func c02GenMode(s *verifh.Session) c02Mode {
 	}
 }
 
-// c02Fetch runs one request in the given mode and renders the caller's view.
+// c02Fetch runs one request in the given mode and renders the caller's view. A call that does
+// not come back within 25 s (the client timeout is 10 s) is reported as stalled: the
+// implementation is spinning or blocked where no timeout reaches it.
 func c02Fetch(cl *Client, sp *c02Spec, mode c02Mode, url string, dir string, id int) (view string, extraOK bool) {
+	type res struct {
+		view string
+		ok   bool
+		pan  interface{}
+	}
+	ch := make(chan res, 1)
+	go func() {
+		defer func() {
+			if r := recover(); r != nil {
+				ch <- res{pan: r}
+			}
+		}()
+		v, ok := c02FetchInner(cl, sp, mode, url, dir, id)
+		ch <- res{view: v, ok: ok}
+	}()
+	select {
+	case r := <-ch:
+		if r.pan != nil {
+			panic(r.pan)
+		}
+		return r.view, r.ok
+	case <-time.After(25 * time.Second):
+		return "error:stalled (no return within 25s)", false
+	}
+}
+
+func c02FetchInner(cl *Client, sp *c02Spec, mode c02Mode, url string, dir string, id int) (view string, extraOK bool) {
 	extraOK = true
 	rq := cl.R()
 	var w *c02Writer
@@ -469,12 +498,13 @@ func TestVerif_C02_e2eh1(t *testing.T) {
 	n := verifh.N(260, 6000)
 	var cl *Client
 	reqs := 0
-	for c := 0; c < n; c++ {
+	fails := 0
+	for c := 0; c < n && fails < 8; c++ { // a broken transport fails (and may stall) every case: stop early
 		if cl == nil || r.Intn(12) == 0 {
 			if cl != nil {
 				cl.GetTransport().CloseIdleConnections()
 			}
-			cl = C().SetTimeout(20 * time.Second)
+			cl = C().SetTimeout(10 * time.Second)
 			if r.Intn(3) == 0 {
 				cl.GetTransport().DisableAutoDecode()
 			}
@@ -506,6 +536,9 @@ func TestVerif_C02_e2eh1(t *testing.T) {
 		}
 		want := sp.expectedView(true)
 		ok := view == want && extraOK
+		if !ok {
+			fails++
+		}
 		s.Count("framing:" + framing)
 		s.Count("mode:" + mode.name)
 		if sp.head {
